@@ -300,7 +300,18 @@ def run(ctx, rep):
     _viewread.run(F, rep, "C12.view-read")
     operands_are_dependencies(F, rep)
     present_optional_compares_with_plain(F, rep)
-
+    # `x == nil` / `nil != f(..)`: the equality operators are compiled like every binary operator - the left value (nil too) is parked while the right
+    # operand runs (C15's clauses for Eq / Neq, read here as "the nil test works whatever stands on the other side")
+    from props import C15 as _c15
+    from core import Report as _Report
+    tmp = _Report("C15", rep.tier)
+    _c15.run(ctx, tmp)
+    k_ = 0
+    for o in tmp.obligations:
+        if o["key"] in ("C15.parked|Eq", "C15.parked|Neq", "C15.order|binop|Eq", "C15.order|binop|Neq"):
+            k_ += 1
+            rep.ob("C12.nil-test", o["instance"], o["status"], o["detail"], o["where"], key=o["key"].replace("C15.", "C12.nil-test|", 1), fn=o.get("fn"))
+    rep.floor("C12.nil-test clauses", k_, 4)
 
 def present_optional_compares_with_plain(F, rep, rule="C12.eq-plain"):
     """`A present optional compares equal to the plain value it holds`: the comparison has to be expressible.  For every kind K whose values can
